@@ -73,12 +73,13 @@ def r06_1(ctx: Ctx) -> None:
     ctx.check(ends_raise, "R06.1", f, chain[0], "FilesInfo dispatch ends in raise for unknown ids", "the FilesInfo property dispatch does not end in `else: raise` (unknown/unsupported properties such as kAnti are skipped silently)",
               construct="FilesInfo dispatch else")
     dummy = [n for n in walk(loops[0]) if isinstance(n, ast.If) and any(isinstance(x, ast.Attribute) and x.attr == "DUMMY" for x in ast.walk(n.test))]
-    ok = bool(dummy) and any(isinstance(c, ast.Call) and attr_tail(c) == "seek" and len(c.args) == 2 and norm(c.args[0]) == "size" for st in dummy[0].body for c in ast.walk(st)) \
+    size_vars = {n.targets[0].id for n in walk(loops[0]) if isinstance(n, ast.Assign) and isinstance(n.targets[0], ast.Name) and isinstance(n.value, ast.Call) and attr_tail(n.value) == "read_uint64"}
+    ok = bool(dummy) and any(isinstance(c, ast.Call) and attr_tail(c) == "seek" and len(c.args) == 2 and norm(c.args[0]) in size_vars for st in dummy[0].body for c in ast.walk(st)) \
         and any(isinstance(s, ast.Continue) for s in dummy[0].body)
     ctx.check(ok, "R06.1", f, dummy[0] if dummy else f.node, "kDummy skips exactly its size", "the kDummy padding record is not skipped by exactly its declared size", construct="FilesInfo DUMMY")
     # each record is parsed from a buffer of exactly `size` bytes (so a record cannot read into the next one)
     bufs = [n for n in walk(loops[0]) if isinstance(n, ast.Assign) and isinstance(n.value, ast.Call) and attr_tail(n.value) == "BytesIO"
-            and n.value.args and isinstance(n.value.args[0], ast.Call) and attr_tail(n.value.args[0]) == "read" and norm(n.value.args[0].args[0]) == "size"]
+            and n.value.args and isinstance(n.value.args[0], ast.Call) and attr_tail(n.value.args[0]) == "read" and norm(n.value.args[0].args[0]) in size_vars]
     ctx.check(len(bufs) == 1, "R06.1", f, loops[0], "each property record is parsed from a size-limited buffer", "property records are not parsed from a buffer limited to the declared record size",
               construct="FilesInfo record buffer")
     # optional sections: StreamsInfo.read / Header._extract_header_info use `if pid == X:` (not elif chains that require an order)
@@ -86,7 +87,8 @@ def r06_1(ctx: Ctx) -> None:
         g = ctx.prog.func("archiveinfo", qn)
         ifs = [n for n in g.node.body if isinstance(n, ast.If)]
         secs = [n for n in ifs if isinstance(n.test, ast.Compare) and isinstance(n.test.ops[0], ast.Eq)]
-        ok = len(secs) >= 2 and all(any(isinstance(s, ast.Assign) and norm(s.targets[0]) == "pid" for s in n.body) for n in secs)
+        idv = {norm(n.test.left) for n in secs} | {norm(n.test.comparators[0]) for n in secs}
+        ok = len(secs) >= 2 and all(any(isinstance(s, ast.Assign) and norm(s.targets[0]) in idv and isinstance(s.value, ast.Call) and attr_tail(s.value) == "read" for s in n.body) for n in secs)
         ctx.check(ok, "R06.1", g, g.node, f"{qn}: every sub-section is optional and advances the id", f"{qn}: sub-sections are not parsed as independent optional blocks that read the next id",
                   construct=f"{qn} optional sections")
 
@@ -198,7 +200,8 @@ def r06_3(ctx: Ctx) -> None:
     for a in [c for c in q.calls(f) if attr_tail(c) == "append" and norm(c.func.value) == "self.digests" and c.args and isinstance(c.args[0], ast.Subscript)]:
         idx = norm(a.args[0].slice)
         incs = [n_ for n_ in walk(f.node) if isinstance(n_, ast.AugAssign) and norm(n_.target) == idx]
-        guarded = any(pol and isinstance(cd, ast.Subscript) and norm(cd.value) == "defined" for cd, pol in q.facts_at(f, a))
+        dvars = {n.targets[0].id for n in walk(f.node) if isinstance(n, ast.Assign) and isinstance(n.targets[0], ast.Name) and isinstance(n.value, ast.Call) and attr_tail(n.value) == "read_boolean"}
+        guarded = any(pol and isinstance(cd, ast.Subscript) and norm(cd.value) in dvars for cd, pol in q.facts_at(f, a))
         ok = ok and bool(incs) and guarded
     ctx.check(ok, "R06.3", f, f.node, "substream digests are attached by walking the defined flags", "substream CRC values are not consumed under their defined flag (index shift for partially defined vectors)",
               construct="substream digest walk")
